@@ -866,3 +866,87 @@ theorem leaseLossOp_tok (p : Proc) : Pres TokInv (leaseLossOp cfg p) := by
   repeat (first | exact Pres.modifySys (fun s hi => TokInv.setPState hi _ .needRole (fun i u hl => by simp at hl)) | pres_core)
 
 end WorkflowModel.Engine
+
+namespace WorkflowModel.Engine
+open WorkflowModel RS
+
+/-! ## a pending announcement keeps its consumer enabled -/
+
+theorem nextIndexFrom_some (p : Proc) (log : List Event) : ∀ (fuel i m : Nat) (e : Event), i ≤ m → log[m]? = some e →
+    subscribed p e = true → m - i < fuel → (nextIndexFrom p log i fuel).isSome = true
+  | 0, _, _, _, _, _, _, h => by omega
+  | fuel + 1, i, m, e, him, hm, hs, hf => by
+    unfold nextIndexFrom
+    have hilt : i < log.length := by
+      have := (List.getElem?_eq_some_iff.mp hm).1
+      omega
+    rw [List.getElem?_eq_getElem hilt]
+    simp only
+    split
+    · rfl
+    · rename_i hns
+      by_cases heq : i = m
+      · subst heq
+        rw [List.getElem?_eq_getElem hilt] at hm
+        cases hm
+        exact absurd hs hns
+      · exact nextIndexFrom_some p log fuel (i + 1) m e (by omega) hm hs (by omega)
+
+/-- a consumer parked at `Recv` whose cursor has not passed a published event of its topic can take a step -/
+theorem enabled_of_pending (s : Sys) (p : Proc) (i : Nat) (e : Event) (hp : s.pstate p = .atRecv)
+    (he : s.log[i]? = some e) (hs : subscribed p e = true) (hc : s.cursor p ≤ i) : s.enabled p = true := by
+  unfold Sys.enabled
+  rw [hp]
+  unfold Sys.nextIndex
+  have hilt : i < s.log.length := (List.getElem?_eq_some_iff.mp he).1
+  exact nextIndexFrom_some p s.log _ _ i e hc he hs (by omega)
+
+end WorkflowModel.Engine
+
+namespace WorkflowModel.Engine
+open WorkflowModel RS
+
+/-! ## the executable mirror `tokOK` is implied by the invariant -/
+
+theorem pendingAtB_of {s : Sys} {w : Rec} (h : PendingAt s w) : pendingAtB s w = true := by
+  unfold pendingAtB
+  rcases h with ⟨o, ho, he⟩ | ⟨i, e, hi, hc, hk⟩
+  · simp only [Bool.or_eq_true, List.any_eq_true]
+    exact Or.inl ⟨o, ho, by rw [he]; exact beq_self_eq_true _⟩
+  · simp only [Bool.or_eq_true, List.any_eq_true]
+    refine Or.inr ⟨i, List.mem_range.mpr (List.getElem?_eq_some_iff.mp hi).1, ?_⟩
+    rw [hi]
+    simp only [Bool.and_eq_true, List.all_eq_true]
+    refine ⟨by have : coreEv e = Routing.route w := hc
+               rw [this]; exact beq_self_eq_true _, fun pc _ => ?_⟩
+    split
+    · rename_i st k n _
+      by_cases hst : st = w.status
+      · subst hst
+        cases hf : filteredOut (Proc.step w.status k n) i e with
+        | true => simp
+        | false => simp [hk k n hf]
+      · simp [hst]
+    · rfl
+
+theorem tokOK_of {s : Sys} (ht : TokInv s) : tokOK s = true := by
+  unfold tokOK
+  simp only [List.all_eq_true]
+  intro x hx
+  obtain ⟨idx, hlt, hget⟩ := List.getElem_of_mem hx
+  have hcur : s.cur idx = x.hist.head? := by
+    unfold Sys.cur
+    rw [List.getElem?_eq_getElem hlt, hget]; rfl
+  cases hh : x.hist.head? with
+  | none => rfl
+  | some w =>
+    simp only
+    by_cases hl : w.runState = 1 ∨ w.runState = 2
+    · have := pendingAtB_of (ht.pending idx w (by rw [hcur, hh]) hl)
+      rw [this]; simp
+    · have : (w.runState == 1 || w.runState == 2) = false := by
+        simp only [not_or] at hl
+        simp [hl.1, hl.2]
+      rw [this]; rfl
+
+end WorkflowModel.Engine
